@@ -45,6 +45,7 @@ def run(ck, fb):
     r04h(ck, fb)
     from rules.c02 import r02h
     r02h(ck, fb, 'R04i')
+    r04j(ck, fb)
 
 
 def r04a(ck, fb):
@@ -343,3 +344,21 @@ def r04h(ck, fb):
             t = Taint(nw, local_src=[c[0].dst] if isinstance(c[0].dst, int) else [])
             ok = t.op_tainted(rv['ops'][rv['fields'].index('lock_file')])
         ck.require(ok, 'R04h', 'new:holds-lock', nw.where(), 'RaftIndexManager::new does not take and keep the directory lock')
+
+
+def r04j(ck, fb):
+    ck.rule('R04j', 'a log file that exists with a non-zero length has a header: recovery (LogInnerManager::init) chooses between "create" and "load" '
+                    'by the file length alone and there is no magic check, so in the create branch the header write precedes the set_len that '
+                    'preallocates the file; a kill between the two otherwise leaves a file of zeros whose header reads index_interval = 0 (the '
+                    'store does not reopen)')
+    b = ck.main('rnacos::raft::filestore::raftlog::LogInnerManager::init', 'R04j')
+    if not b:
+        return
+    sl = util.sites_on_field(b, r'tokio::fs::File::set_len$', None) if False else b.calls(r'tokio::fs::File::set_len$')
+    wa = b.calls(r'AsyncWriteExt::write_all$')
+    ck.floor('R04j', 'set_len in LogInnerManager::init', len(sl), 1)
+    ck.floor('R04j', 'write_all in LogInnerManager::init', len(wa), 1)
+    for s0 in sl:
+        ok = any(cfg.dominates_blocks(b, {w.bb}, s0.bb) for w in wa)
+        ck.require(ok, 'R04j', 'init:header-before-preallocation', s0.where(),
+                   'the new log file is given its preallocated length before the header is written')
